@@ -18,6 +18,10 @@ pub struct ThreadPlan {
     pub jobs: Vec<usize>,
     /// reuse the previous job's file server for this queue position
     pub reuse: Vec<bool>,
+    /// per queue position: handles registered by the host before the built-in
+    /// library (0 = canonical layout)
+    #[serde(default)]
+    pub offsets: Vec<usize>,
 }
 
 #[derive(Clone, Debug, PartialEq, Eq, Serialize, Deserialize)]
@@ -59,7 +63,7 @@ impl SimPlan {
         SimPlan {
             jobs: vec![job],
             faults: vec![faults],
-            threads: vec![ThreadPlan { keys: keys_to_hex(keys), jobs: vec![0], reuse: vec![false] }],
+            threads: vec![ThreadPlan { keys: keys_to_hex(keys), jobs: vec![0], reuse: vec![false], offsets: vec![] }],
             schedule: vec![],
             sched_seed: None,
             switch_16: 0,
@@ -152,7 +156,7 @@ pub fn run_plan(plan: &SimPlan) -> PlanResult {
                 let mut server: Option<SimFileServer> = None;
                 for (pos, jidx) in tp.jobs.iter().enumerate() {
                     sched.yield_point(tid);
-                    let env = ExecEnv { sched: Some((sched.clone(), tid)), lib_pass: plan.lib_pass, all_formats: plan.all_formats };
+                    let env = ExecEnv { sched: Some((sched.clone(), tid)), lib_pass: plan.lib_pass, all_formats: plan.all_formats, handle_offset: tp.offsets.get(pos).copied().unwrap_or(0) };
                     let reuse = tp.reuse.get(pos).copied().unwrap_or(false);
                     let prev = if reuse { server.take() } else { None };
                     let seq_start = sched.next_seq();
